@@ -50,12 +50,16 @@ theorem rotate_before_handoff :
     noOther (itemsOf "DB.rotateWalAndFlushMemstore") = true := by decide +kernel
 
 /-- C13-m1: `Appender.Rotate` closes the current writer (which writes out its buffer) BEFORE the next file is set up;
-`setupNextWriter` creates the file, then writes its header -/
+`setupNextWriter` creates the file, then writes its header.  Since a9ebc7d a writer whose `Open` failed is closed again:
+that close comes after the `Open`, only under `err != nil` — the fault-free rotation is still create, header, nothing else -/
 theorem rotate_closes_before_creating_next :
     acts (itemsOf "Appender.Rotate") = [.closeCurrentWalWriter, .setupNextWriter] ∧
     noOther (itemsOf "Appender.Rotate") = true ∧
     unconditional .closeCurrentWalWriter (itemsOf "Appender.Rotate") = true ∧
-    inOrder [.walWriterFactory, .openWalWriter] (itemsOf "wal.setupNextWriter") = true ∧
+    acts (itemsOf "wal.setupNextWriter") = [.walWriterFactory, .openWalWriter, .closeFailedWalWriter] ∧
+    unconditional .walWriterFactory (itemsOf "wal.setupNextWriter") = true ∧
+    unconditional .openWalWriter (itemsOf "wal.setupNextWriter") = true ∧
+    condsAround .closeFailedWalWriter [] (itemsOf "wal.setupNextWriter") = [["err != nil"]] ∧
     noOther (itemsOf "wal.setupNextWriter") = true := by decide +kernel
 
 /-- the appenders check the size limit first (SimpleDB sets it to MaxUint64: no rotation of its own), then write -/
